@@ -9,7 +9,7 @@ REQUIRED = ['Petl.C13.' + n for n in (
     'rowslice_eq_islice head_is_take tail_is_suffix selectors_as_expected selecteq_sem selectne_sem selectlt_sem selectle_sem '
     'selectgt_sem selectge_sem selectin_sem selectnotin_sem selectrangeopenleft_sem selectrangeopenright_sem selectrangeopen_sem '
     'selectrangeclosed_sem selecttrue_sem selectfalse_sem selectnone_sem selectnotnone_sem compound_field_cells cellOr_absent cellOr_present '
-    'facet_covers facet_only_own_key').split()]
+    'facet_covers facet_only_own_key search_partition search_short_row_in_complement').split()]
 
 REFS = [None, 1, 1.0, 2, 2.5, 'a', 'b', (1, 'a'), [1, 'a'], True, b'a']
 CELLS = gen.SMALL_KEYS + [[1, 'a'], 0, '', ()]
@@ -242,6 +242,36 @@ def run(ctx):
                 ctx.spec_fail('%s|wrong-rows' % name.split('(')[0], '%s does not select exactly the rows of its documented predicate' % name,
                               {'table': repr(T), 'field': repr(f), 'complement': compl, 'real': got, 'want': want,
                                'argument': repr(typ if name == 'selectisinstance' else obj)})
+
+    # ---- search / searchcomplement against the model: the verdict of re.search on every cell's text goes to the driver as a mask
+    import re as _re2
+    slines, smeta = [], []
+    for ci in range(400 if ctx.thorough() else 100):
+        hdr = gen.header(rng, n=rng.choice([1, 2, 3]))
+        T = gen.table(rng, hdr, default_pool=['a', 'b', 'ab', 'ba', '', None, 1, 12, 'A'], maxn=6, ragged=0.35)
+        pat = rng.choice(['a', 'b$', '^a', '1', 'A', '.', 'zz'])
+        fl = rng.choice([0, 0, _re2.I])
+        field = rng.choice([None, rng.choice(hdr), hdr.index(rng.choice(hdr))] + ([tuple(rng.sample(hdr, 2))] if len(set(hdr)) >= 2 else []))
+        mask = [[0] * len(T[0])] + [[1 if _re2.search(pat, str(c), fl) else 0 for c in r] for r in T[1:]]
+        for compl in (False, True):
+            try:
+                slines.append('search %s %s %s %s' % (proto.enc_bool(compl), util.enc_key(field), proto.enc_table(T), proto.enc_table(mask)))
+            except proto.Unencodable:
+                continue
+            smeta.append((T, pat, fl, field, compl))
+    for (T, pat, fl, field, compl), spec in zip(smeta, lean.run_driver(slines)):
+        fn = etl.searchcomplement if compl else etl.search
+        real = util.run_show(lambda: fn(T, pat, flags=fl) if field is None else fn(T, field, pat, flags=fl))
+        ctx.case(('search-model', repr(T), pat, int(fl), repr(field), compl) if len(T) > 2 else None)
+        ctx.count('op:search(model)')
+        case = {'table': repr(T), 'pattern': pat, 'flags': int(fl), 'field': repr(field), 'complement': compl, 'real': real, 'spec': spec}
+        if spec.startswith(('PARSE', 'BADOP')):
+            ctx.corr_fail('search', 'driver: ' + spec, case)
+            continue
+        ctx.exact(real == spec, case)
+        if real != spec:
+            ctx.spec_fail('search|%s' % ('raises' if ' ERR ' in real and ' ERR ' not in spec else 'wrong-rows'),
+                          'search / searchcomplement do not return exactly the rows with / without a matching cell among the cells present', case)
 
     # ---- positional selections of positional selections (rowslice / head / tail / skip nested two and three deep) against islice
     import itertools as _it
